@@ -53,6 +53,7 @@ declarations:
 - decl: void growCstr(char *s +intent(inout))
 - decl: void takeVec(const std::vector<int> &v)
 - decl: void takeVecStr(const std::vector<std::string> &v)
+- decl: int dotTwo(const int *a +rank(1), int na +implied(size(a)), const int *b +rank(1), int nb +implied(size(b)))
 - decl: void fillVecN(int n, std::vector<int> &v +intent(out))
 - decl: std::vector<int> retVec()
 patterns:
@@ -102,6 +103,7 @@ void outCstr(char *s);
 void growCstr(char *s);
 void takeVec(const std::vector<int> &v);
 void takeVecStr(const std::vector<std::string> &v);
+int dotTwo(const int *a, int na, const int *b, int nb);
 void fillVecN(int n, std::vector<int> &v);
 std::vector<int> retVec();
 #endif
@@ -170,6 +172,7 @@ void outCstr(char *s) { std::strcpy(s, "twelve chars"); }
 void growCstr(char *s) { vt_seen = (long) std::strlen(s); std::strcat(s, "+xy"); }  /* the caller's variable has room for it */
 void takeVec(const std::vector<int> &v) { vt_seen = (long) v.size(); }
 void takeVecStr(const std::vector<std::string> &v) { vt_seen = (long) v.size() * 100 + (long) v[v.size() - 1].size(); }
+int dotTwo(const int *a, int na, const int *b, int nb) { int s = 0; for (int i = 0; i < na && i < nb; i++) s += a[i] * b[i]; return s; }
 void fillVecN(int n, std::vector<int> &v) { v.clear(); for (int i = 1; i <= n; i++) v.push_back(i); }
 std::vector<int> retVec() { std::vector<int> v; v.push_back(4); v.push_back(5); v.push_back(6); return v; }
 static int cmpi(const void *a, const void *b) { return *(const int *) a - *(const int *) b; }
@@ -774,6 +777,13 @@ for op in sys.argv[1:]:
         elif op[1] == "m": r = own.modStr("dog"[:ident]); seen.value = 0
         elif op[1] == "o": r = own.outCstr(); seen.value = 0
         elif op[1] == "v": own.takeVec(list(range(ident)))
+        elif op[1] == "e":
+            # two converted arguments: both fine, the later one with a bad element, the later one not a sequence
+            big = list(range(200))
+            try:
+                seen.value = own.dotTwo(big, [1, 2, 3] if ident == 1 else ["x"] if ident == 2 else 7)
+            except (TypeError, ValueError):
+                seen.value = -2
         val = seen.value
     cnt.value = 0
     status(op, val)
@@ -791,7 +801,7 @@ def py_enabled(m):
             ops += ["m%d" % s_, "r%d" % s_]
             if slots[1 - s_] is None:
                 ops.append("y%d%d" % (s_, 1 - s_))
-    ops += ["SN", "SR", "SC", "SL", "SE", "SF", "An:3", "An:0", "Al:3", "Ap:3", "Vf", "Vr", "Ts", "Tc", "Tn:1", "Tn:4", "Tm:3", "To:20", "Tv:0", "Tv:3"]
+    ops += ["SN", "SR", "SC", "SL", "SE", "SF", "An:3", "An:0", "Al:3", "Ap:3", "Vf", "Vr", "Ts", "Tc", "Tn:1", "Tn:4", "Tm:3", "To:20", "Tv:0", "Tv:3", "Te:1", "Te:2", "Te:3"]
     return ops
 
 
